@@ -467,8 +467,21 @@ class Fold(ast.NodeTransformer):
                         return copy.deepcopy(v)
         return n
 
+    def _module_string(self, e):
+        """the string a Name denotes when it is a module-level string constant (of this module or imported), not shadowed locally"""
+        if self.repo is None or not isinstance(e, ast.Name) or e.id in self._module_names():
+            return None
+        cv = self.repo.const_value(self.f.mod, e.id)
+        return cv if isinstance(cv, ast.Constant) and isinstance(cv.value, str) else None
+
     def visit_Subscript(self, n):
         self.generic_visit(n)
+        # X[KEY_NAME] with KEY_NAME a module-level string constant: the key itself
+        if isinstance(n.slice, ast.Name):
+            ms = self._module_string(n.slice)
+            if ms is not None and getattr(self, "_fold_keys", False):
+                n.slice = copy.deepcopy(ms)
+                self.changed = True
         # TABLE["key"] with TABLE a module / class level dict display of constants, closed lambdas or accessors
         if self.repo is not None and isinstance(n.ctx, ast.Load) and isinstance(n.slice, ast.Constant) and isinstance(n.value, (ast.Name, ast.Attribute)):
             d = _const_dict(self.repo, self.f, n.value)
@@ -3638,6 +3651,7 @@ def partial_evaluate(repo, max_rounds=8):
                 ch = True
                 steps.append("tuples")
             fo = Fold(repo, f)
+            fo._fold_keys = bool(steps) or q in getattr(repo, "inlined", {})
             f.node = fo.visit(f.node)
             body, c2 = fold_if_statements(f.node.body)
             f.node.body = body
